@@ -21,7 +21,7 @@ class Spec:
 
     def strategy(self, tier):
         o = {"p_failflag": 0, "p_csum": 25,
-             "weights": {"cmd": 50, "failflag": 0, "setdo": 12, "adddo": 6, "rmdo": 5, "rmtarget": 8,
+             "weights": {"cmd": 50, "failflag": 0, "setdo": 12, "crash": 6, "adddo": 6, "rmdo": 5, "rmtarget": 8,
                          "mwrite": 4, "mremove": 3}}
         if tier == "thorough":
             o.update(max_targets=14, max_ops=30)
